@@ -169,7 +169,7 @@ func runC14(c *hx.Ctx) error {
 	}
 	res.SpecChecks["gc-batch-programs"] = len(progs)
 
-	// the Lean evaluators: source level and VM level (main at a non-zero frame pointer), two seeds each
+	// the Lean evaluators: source level and VM level (main at a non-zero frame pointer), one (quick) or two (thorough) random schedules each
 	var lines []string
 	var owner []int
 	for i, p := range progs {
@@ -177,7 +177,7 @@ func runC14(c *hx.Ctx) error {
 			continue
 		}
 		for _, lv := range []string{"src", "vm"} {
-			for s := 0; s < 2; s++ {
+			for s := 0; s < c.N(1, 2); s++ {
 				lines = append(lines, p.protoLine(lv, 3+i%5, 400000, c.R.U64()))
 				owner = append(owner, i)
 			}
